@@ -339,7 +339,9 @@ def run(ck):
         "samples": total_reqs[:3] + [q for q in total_reqs if q.startswith("disp")][:2] + [q for q in total_reqs if q.startswith("parse")][100:102] + [q[:200] for q in total_reqs if q.startswith("sql")][:1],
         "model_vs_impl": {"compared": stats["mvi"]["compared"], "disagree": stats["mvi"]["disagree"]},
         "impl_vs_oracle": {"compared": stats["ivo"]["compared"], "disagree": stats["ivo"]["disagree"],
-                           "note": "disagreements here are the recorded known findings unless a VIOLATION is printed"},
+                           "explained_by_finding": {k[len("finding:"):]: v for k, v in stats["dist"].items() if k.startswith("finding:")},
+                           "unexplained": stats["ivo"]["disagree"] - sum(v for k, v in stats["dist"].items() if k.startswith("finding:")),
+                           "note": "a disagreement is absorbed by a finding only when the model predicts exactly the observed text and parse result; `unexplained` ones are each reported as a VIOLATION"},
         "model_vs_oracle": {"compared": stats["mvo"]["compared"], "disagree": stats["mvo"]["disagree"]},
         "distribution": dict(sorted(stats["dist"].items())),
     })
